@@ -31,6 +31,20 @@ class Ctx:
             self._cache[key] = eng.summarize(body, args)
         return self._cache[key]
 
+    def closure_paths(self, clo, outer, args, stop_trait_methods=(), opaque_prefixes=()):
+        """paths of a closure body evaluated in the store of the path `outer` that built the closure value `clo`;
+        `args` are the explicit (untupled) arguments"""
+        body = self.facts.by_hash.get(clo[1][2])
+        if body is None:
+            return None
+        eng = T.Engine(self.facts, T.Policy(stop_trait_methods=stop_trait_methods, no_inline_prefixes=opaque_prefixes))
+        store = dict(outer['store'])
+        envloc = (('L', 'env', 0), ())
+        store[envloc] = clo
+        envty = self.facts.ty(body['locals'][1])
+        a0 = ('ref', envloc) if envty.get('k') == 'ref' else clo
+        return eng.summarize(body, [a0] + list(args), store=store, frame=1000)
+
     # -- struct fields by name -------------------------------------------------
     def field_index(self, adt_path, name):
         a = self.facts.adts.get(adt_path)
